@@ -35,6 +35,8 @@ SHARD_TIMEOUT = {"quick": 600, "thorough": 3000}
 def plan(tier, seed):
     sh = [{"kind": "async", "driver": d, "mode": "classes"} for d in simlib.DRIVERS]
     sh += [{"kind": "async", "driver": d, "mode": "seq"} for d in ("tridonic",)]
+    # whatever the random source yields for the first sequence number (its extremes included)
+    sh += [{"kind": "async", "driver": "tridonic", "mode": "seq", "random": m} for m in ("max", "min")]
     if tier == "thorough":
         for d in simlib.DRIVERS:
             for p in range(4):
@@ -179,6 +181,10 @@ def run_async(desc, tier, seed, res):
             cmds.append(c)
         for _ in range(2000 if driver != "hasseb" else 0):
             cmds.append(command.from_frame(frame.ForwardFrame(24, r.getrandbits(24) | 0x010000)))
+    if desc["mode"] == "classes":
+        # a command object is a value: sending the same object again gives the same packet (every 5th object is sent twice,
+        # the second time at the end of the run)
+        cmds = cmds + cmds[::5]
     picker = simlib.Picker(r, overrides={"tri.queue_delay": 0, "luba.queue_delay": 0, "sci.queue_delay": 0, "serial.chunking": 0})
     def answer(width, value, idx, dt):
         # receive side: every kind of outcome report is exercised in turn
@@ -186,7 +192,7 @@ def run_async(desc, tier, seed, res):
             return None           # units answer queries only
         return [("ok", (idx * 29 + 3) % 256), None, ("collision", 0x55), ("ok", 255), ("ok", 0)][idx % 5]
     qframes = {(len(c.frame), c.frame.as_integer) for c in cmds if c.response is not None}
-    sim = simlib.Sim(driver, picker, answer=answer)
+    sim = simlib.Sim(driver, picker, answer=answer, random_mode=desc.get("random"))
     marks = []
     results = {}
     bad_len = []
@@ -533,6 +539,54 @@ def run_legacy(seed, res):
                   (exp == "err" and isinstance(got, frame.BackwardFrame) and got.error)
             if not okk:
                 res.violation("C18/legacy-hasseb/extract", f"status {status} decoded as {got!r}", {"status": status})
+        # the whole receive path: send() of the synchronous legacy driver against a stub HID device reporting each status
+        class FakeHidDevice:
+            def __init__(self):
+                self.reports, self.written = [], []
+                self.status, self.value = 2, 0x5A
+
+            def write(self, data):
+                self.written.append(bytes(data))
+                if data[4]:          # expect_reply
+                    self.reports.append(bytes([0xAA, Hm.HASSEB_DALI_FRAME, data[2], self.status, 1, self.value, 0, 0, 0, 0]))
+
+            def read(self, n):
+                return self.reports.pop(0) if self.reports else bytes([0xAA, 0, 0, 0, 0, 0, 0, 0, 0, 0])
+        import dali.gear.general as gg_
+        from dali import address as A_
+        orig_sleep_h = Hm.time.sleep
+        Hm.time.sleep = lambda t: None
+        try:
+            for status, v in ((1, 0), (2, 0x5A), (2, 0), (2, 255), (3, 0x11)):
+                sd = Hm.SyncHassebDALIUSBDriver.__new__(Hm.SyncHassebDALIUSBDriver)
+                sd.sn = 0
+                sd.logger = logging.getLogger("hasseb-c18")
+                sd.device = FakeHidDevice()
+                sd.device.status, sd.device.value = status, v
+                for c in (gg_.QueryStatus(A_.GearShort(3)), gg_.QueryControlGearPresent(A_.GearBroadcast()), gg_.DAPC(A_.GearShort(1), 9)):
+                    res.evaluations += 1
+                    res.hit("extract_codes_checked")
+                    try:
+                        out = sd.send(c)
+                    except Exception as e:
+                        res.violation(f"C18/legacy-hasseb/send-raised/{type(e).__name__}", f"send({c}) with status {status} raised {type(e).__name__}: {e}",
+                                      {"status": status})
+                        continue
+                    if c.response is None:
+                        if out is not None:
+                            res.violation("C18/legacy-hasseb/report-decoding/non-query", f"send({c}) returned {out!r}", {"status": status})
+                        continue
+                    raw = getattr(out, "raw_value", "missing")
+                    ok_ = type(out) is c.response and ((status == 1 and raw is None) or
+                                                       (status == 2 and raw is not None and not raw.error and raw.as_integer == v) or
+                                                       (status == 3 and raw is not None and raw.error))
+                    if not ok_:
+                        res.violation(f"C18/legacy-hasseb/report-decoding/status-{status}",
+                                      f"{c}: the device reported status {status} (1 no answer, 2 ok value {v:#x}, 3 invalid answer); send() returned "
+                                      f"{type(out).__name__} with raw {None if raw is None else ('framing error' if raw.error else raw.as_integer)!r}",
+                                      {"status": status, "command": str(c)})
+        finally:
+            Hm.time.sleep = orig_sleep_h
     except Exception as e:
         res.inconclusive.append("legacy hasseb driver not importable: " + short_tb(e))
     # ---- UniPi
